@@ -223,6 +223,8 @@ def run(ctx):
     # named numbers as constraint bounds (the same identifiers name other numbers in another type): class and path as with literal bounds
     from .. import samename as _samename
     _samename.run_named(ctx, 'C12', ctx.rng, ctx.n(6, 60))
+    from .. import scripted as _scripted
+    _scripted.set_missing_member(ctx, CODECS)
 
 
 def in_addition(t, v):
